@@ -955,10 +955,10 @@ func scripts(name string) (mk bool, ops []sop) {
 		// the directory), and at every crash point the key holds what it held before
 		return true, []sop{
 			u("checkpoint", lit([]byte("v1")), false),
-			uf("checkpoint", gen(200000, 5), false, 65536),
-			uf("tile/data/x001/000", gen(200000, 6), true, 65536),
-			uf("tile/data/x001/000", gen(200000, 6), true, 0),
-			u("tile/data/x001/000", gen(200000, 6), true),
+			uf("checkpoint", gen(20000, 5), false, 8192),
+			uf("tile/data/x001/000", gen(20000, 6), true, 8192),
+			uf("tile/data/x001/000", gen(20000, 6), true, 0),
+			u("tile/data/x001/000", gen(20000, 6), true),
 			uf("checkpoint", lit([]byte("version two")), false, 4),
 			uf("checkpoint", lit([]byte("version 2")), false, 9), // the limit is not reached
 			{kind: "fetch", key: "checkpoint"},
